@@ -681,11 +681,15 @@ def _scale_sn(
     float | ndarray
         The Normalized Sn scale of the array.
     """
-    norm = 1.1926
     data = np.asanyarray(data, dtype=np.float64)
-    diffs = np.abs(data[..., None] - data[..., None, :])
-    median_diffs = np.median(diffs, axis=-1)
-    return norm * np.median(median_diffs, axis=axis)
+    return apply_along_axes(_scale_sn_1d, data, axis)
+
+
+def _scale_sn_1d(data: np.ndarray) -> float:
+    """Calculate the Normalized Sn scale of an 1D array."""
+    norm = 1.1926
+    diffs = np.abs(data[:, None] - data)
+    return norm * np.median(np.median(diffs, axis=-1))
 
 
 def _scale_gapper(
